@@ -31,6 +31,17 @@ Theorem C15_never_close_foreign :
 Proof. exact never_close_foreign_current. Qed.
 Print Assumptions C15_never_close_foreign.
 
+(* The theorem applied to a failing uv_spawn: stdio = [UV_INHERIT_STREAM of an open tcp handle;
+   UV_CREATE_PIPE; UV_CREATE_PIPE with a handle that is not a pipe -> UV_EINVAL].  The call
+   returns an error, closes exactly the pair it created (12, 13), and the inherited stream's
+   descriptor 11 is still held by its handle. *)
+Example C15_failed_spawn_closes_only_its_own :
+  let st := run true stdio3 failing_spawn_prog [] in
+  hd (ERet RC_OK) (i_tr (snd st)) = ERet RC_ERR /\
+  fd_of (OHandle 0 HIo) (i_led (snd st)) = Some 11 /\ count_if is_temp (i_led (snd st)) = 0 /\
+  In (EClose 12 (OTemp 2)) (i_tr (snd st)) /\ In (EClose 13 (OTemp 3)) (i_tr (snd st)).
+Proof. exact failing_spawn_example. Qed.
+
 (* History (code before 4ad4719): uv_spawn's error path after a failing uv__stream_open closed the
    descriptor of an already opened stdio stream through the stream and then again by number
    (ERawClose _ None: the number is not open any more). *)
